@@ -249,12 +249,21 @@ def _hit(p, a, b):
     return _dot(w, w), t, c
 
 
+def _feat(points):
+    """FEATURE size: spread of the points around the first one (exact). Tolerances are relative to it, so that an error of
+    the size of the scene is seen however far from the origin the scene sits."""
+    pts = [q_ for q_ in points]
+    if not pts:
+        return Fr(0)
+    return max([Fr(0)] + [abs(x - r) for q_ in pts for x, r in zip(q_, pts[0])])
+
+
 def _exact_nearest(vs, closed, p):
     """(well_conditioned, index, t, point, d2) with exact rationals; index = first minimal segment"""
     hs = [_hit(p, a, b) for a, b in _segs(vs, closed)]
     best = min(range(len(hs)), key=lambda k: (hs[k][0], k))
     d2, t, c = hs[best]
-    mag = max([Fr(0)] + [abs(x) for v in vs for x in v] + [abs(x) for x in p])
+    mag = _feat(list(vs) + [p])
     well = all(h[0] > d2 * (1 + Fr(1, 10 ** 5)) + Fr(1, 10 ** 10) * mag * mag or h[2] == c for h in hs)
     return well, best, t, c, d2
 
@@ -304,7 +313,7 @@ def _perm(rng, pts):
     return [[p[ax[0]], p[ax[1]], p[ax[2]]] for p in pts], ax
 
 
-def _query_near(rng, vs, closed, ax, sc=1.0):
+def _query_near(rng, vs, closed, ax, sc=1.0, exact_only=False):
     """a point near the polyline: on a segment at a dyadic parameter, moved off a little"""
     segs = _segs(vs, closed)
     a, b = segs[rng.randrange(len(segs))]
@@ -312,16 +321,63 @@ def _query_near(rng, vs, closed, ax, sc=1.0):
     p = [a[j] + t * (b[j] - a[j]) for j in range(3)]
     off = [0.0, 0.0, 0.0]
     normal_axis = ax.index(2)          # the coordinate that is constant on the polyline
-    if rng.random() < 0.6:
+    if exact_only or rng.random() < 0.6:
         off[normal_axis] = rng.choice([0.125, -0.25, 0.0]) * sc
     else:
         off = [rng.choice([0.0, 0.0625, -0.0625]) * sc for _ in range(3)]
     return [x + y for x, y in zip(p, off)]
 
 
+def _far_offset_case(rng):
+    """far_offset_exact: a unit-size scene on a dyadic grid translated by 2^24 .. 2^31 per axis. Segment vectors have
+    power-of-two squared length (or integer end points with queries at dyadic parameters), so every t, closest point
+    and squared distance is exactly representable and the code must agree with the exact model to a tolerance relative
+    to the FEATURE size. A formula that subtracts large numbers (|q|^2 + |p|^2 - 2 q.p) loses everything here."""
+    off = [rng.choice([1, -1]) * 2.0 ** rng.randint(24, 31) for _ in range(3)]
+    sh = lambda p: [x + o for x, o in zip(p, off)]
+    r = rng.random()
+    if r < 0.45:
+        pts = [[x for x in grid_vec(rng, -2, 2, 8)]]
+        for _ in range(rng.randint(1, 6)):
+            pts.append(list(pts[-1]) if rng.random() < 0.15 else [a + b for a, b in zip(pts[-1], rng.choice(POW2_VECS))])
+        single = rng.random() < 0.2
+        qs = [grid_vec(rng, -4, 4, 2) for _ in range(1 if single else rng.randint(1, 4))]
+        if rng.random() < 0.3:
+            qs[0] = list(rng.choice(pts))
+        return {"kind": "nearest_far_offset_exact", "v": [sh(p) for p in pts], "closed": False,
+                "points": [sh(p) for p in qs], "single": single, "flags": _flags(rng)}
+    if r < 0.7:
+        ps, sa, sv = [], [], []
+        for _ in range(rng.randint(1, 6)):
+            a = grid_vec(rng, -3, 3, 8)
+            v = [0.0, 0.0, 0.0] if rng.random() < 0.15 else rng.choice(POW2_VECS)
+            p = grid_vec(rng, -4, 4, 2)
+            if rng.random() < 0.3:
+                t = rng.choice([0.0, 0.25, 0.5, 1.0])
+                p = [a[j] + t * v[j] for j in range(3)]
+            ps.append(sh(p)), sa.append(sh(a)), sv.append(v)
+        return {"kind": "closest_pairs_far_offset_exact", "exact": True, "points": ps, "starts": sa, "vectors": sv,
+                "eps": rng.choice([0.0, 0.25, 0.5, 1.0, 2.0])}
+    while True:
+        closed = rng.random() < 0.5
+        pts, ax = _perm(rng, _simple_closed(rng) if closed else _simple_open(rng))
+        a = _query_near(rng, pts, closed, ax, 1.0, exact_only=True)
+        b = _query_near(rng, pts, closed, ax, 1.0, exact_only=True)
+        pts, a, b = [sh(p) for p in pts], sh(a), sh(b)
+        fv = [_F3(p) for p in pts]
+        wa, ia, ta, ca, _ = _exact_nearest(fv, closed, _F3(a))
+        wb, ib, tb, cb, _ = _exact_nearest(fv, closed, _F3(b))
+        if wa and wb and ca != cb:
+            return {"kind": "sliced" + ("_closed" if closed else "_open") + "_far_offset_exact", "v": pts, "closed": closed,
+                    "a": a, "b": b, "int": False, "near_pair": False}
+
+
 def gen_cases(rng, n, tier):
     cases = []
     while len(cases) < n:
+        if rng.random() < 0.1:
+            cases.append(_far_offset_case(rng))
+            continue
         u = rng.random()
         r_sc = rng.random()
         sc = 1.0 if r_sc < 0.45 else 2.0 ** (rng.randint(-10, 10) if r_sc < 0.8 else rng.randint(-30, 30))
@@ -485,7 +541,7 @@ def run_impl(c):
                                                                       ret_t_values=True), c["single"]))}
                 out["args_unchanged"] = bool(np.array_equal(before, arg) and np.array_equal(pl.v, v))
                 return out
-            if c["kind"] == "closest_pairs":
+            if c["kind"].startswith("closest_pairs"):
                 ps = np.array(c["points"], dtype=np.float64).reshape(-1, 3)
                 sa = np.array(c["starts"], dtype=np.float64).reshape(-1, 3)
                 sv = np.array(c["vectors"], dtype=np.float64).reshape(-1, 3)
@@ -543,7 +599,7 @@ def coq_case(c, o):
         ri, rd, rt = c["flags"]
         return "CNearest %s %s %s %s %s %s %s" % (_pl(c), coq_list(qv(p) for p in c["points"]), coq_bool(ri), coq_bool(rd),
                                                   coq_bool(rt), _onear(o["obs"]), _onear(o["full"]))
-    if c["kind"] == "closest_pairs":
+    if c["kind"].startswith("closest_pairs"):
         if "raise" in o:
             return "CClosest true [] [] [] 0 [] [FNan] []"
         return "CClosest %s %s %s %s %s %s %s %s" % (
@@ -560,7 +616,7 @@ ONLY_T = "ret_t_values was requested but no t values were returned (bare point a
 
 
 def _close(x, y, mag, rel=Fr(1, 10 ** 8)):
-    return abs(Fr(float(x)) - y) <= rel * max(abs(y), mag)
+    return abs(Fr(float(x)) - y) <= rel * mag
 
 
 def _col_of(obs, kind, nth=0):
@@ -590,7 +646,7 @@ def _oracle_nearest(c, o):
     want_shapes = [[3], [], [], []] if c["single"] else [[k, 3], [k], [k], [k]]
     if [x["shape"] for x in full["tuple"]] != want_shapes:
         return "nearest(all flags): result shapes %r, expected %r" % ([x["shape"] for x in full["tuple"]], want_shapes)
-    mag = max([Fr(0)] + [abs(x) for v in vs for x in v] + [abs(x) for p in c["points"] for x in _F3(p)])
+    mag = _feat(list(vs) + [_F3(p) for p in c["points"]])
     for r in range(k):
         p = _F3(c["points"][r])
         if not (0 <= I[r] < len(segs)):
@@ -656,7 +712,7 @@ def _oracle_sliced(c, o):
             return "sliced_at_points raised %s on two points with (almost) the same nearest point" % o["raise"]
         vs = [_F3(p) for p in c["v"]]
         ca = _exact_nearest(vs, c["closed"], _F3(c["a"]))[3]
-        mag = max([Fr(0)] + [abs(x) for p in vs for x in p])
+        mag = _feat(vs)
         if o["closed"] or len(o["v"]) not in (1, 2):
             return "near pair: expected the single vertex nearest(a) (or the two points), got %d vertices" % len(o["v"])
         for got in o["v"]:
@@ -674,7 +730,7 @@ def _oracle_sliced(c, o):
         return "sliced_at_points returned a closed polyline"
     if not o["args_unchanged"]:
         return "polyline was modified"
-    mag = max([Fr(0)] + [abs(x) for p in exp for x in p])
+    mag = _feat(exp)
     if len(o["v"]) != len(exp):
         return "sub-path has %d vertices, expected %d (nearest(a), vertices in between, nearest(b))" % (len(o["v"]), len(exp))
     for r, (got, want) in enumerate(zip(o["v"], exp)):
@@ -711,9 +767,9 @@ def oracle(c, o):
         return None                                       # documented float range, not judged
     if c["kind"].startswith("nearest"):
         return _oracle_nearest(c, o)
-    if isinstance(o, dict) and "raise" in o and c["kind"] == "closest_pairs":
+    if isinstance(o, dict) and "raise" in o and c["kind"].startswith("closest_pairs"):
         return "unexpected exception %s: %s" % (o["raise"], o.get("msg"))
-    if c["kind"] == "closest_pairs":
+    if c["kind"].startswith("closest_pairs"):
         if not o["same_without_t"]:
             return "closest points differ with and without ret_t_values"
         k = len(c["points"])
@@ -722,7 +778,7 @@ def oracle(c, o):
         eps2 = Fr(float(c["eps"])) ** 2
         for r in range(k):
             p, a, v = _F3(c["points"][r]), _F3(c["starts"][r]), _F3(c["vectors"][r])
-            mag = max([Fr(0)] + [abs(x) for x in p + a + v])
+            mag = max([Fr(0)] + [abs(x - y) for x, y in zip(p, a)] + [abs(x) for x in v])
             t = Fr(o["ts"][r])
             if not (0 <= t <= 1):
                 return "row %d: t=%r outside [0,1]" % (r, o["ts"][r])
